@@ -4,8 +4,10 @@ use futures_util::FutureExt;
 use indexmap::IndexMap;
 
 use crate::{
-    Context, ContextBase, ContextSelectionSet, Error, Name, OutputType, ServerError, ServerResult,
-    Value, extensions::ResolveInfo, parser::types::Selection,
+    Context, ContextBase, ContextSelectionSet, Error, Name, OutputType, Positioned, ServerError,
+    ServerResult, Value,
+    extensions::ResolveInfo,
+    parser::types::{Field, Selection},
 };
 
 /// Represents a GraphQL container object.
@@ -227,100 +229,15 @@ impl<'a> Fields<'a> {
                     let resolve_fut = Box::pin({
                         let ctx = ctx.clone();
                         async move {
-                            let ctx_field = ctx.with_field(field);
-                            let field_name = ctx_field.item.node.response_key().node.clone();
-                            let extensions = &ctx.query_env.extensions;
-
-                            if extensions.is_empty() && field.node.directives.is_empty() {
-                                Ok((
-                                    field_name,
-                                    root.resolve_field(&ctx_field).await?.unwrap_or_default(),
-                                ))
-                            } else {
-                                let type_name = T::type_name();
-                                let resolve_info = ResolveInfo {
-                                    path_node: ctx_field.path_node.as_ref().unwrap(),
-                                    parent_type: &type_name,
-                                    return_type: match ctx_field
-                                        .schema_env
-                                        .registry
-                                        .types
-                                        .get(type_name.as_ref())
-                                        .and_then(|ty| {
-                                            ty.field_by_name(field.node.name.node.as_str())
-                                        })
-                                        .map(|field| &field.ty)
-                                    {
-                                        Some(ty) => &ty,
-                                        None => {
-                                            return Err(ServerError::new(
-                                                format!(
-                                                    r#"Cannot query field "{}" on type "{}"."#,
-                                                    field_name, type_name
-                                                ),
-                                                Some(ctx_field.item.pos),
-                                            ));
-                                        }
-                                    },
-                                    name: field.node.name.node.as_str(),
-                                    alias: field
-                                        .node
-                                        .alias
-                                        .as_ref()
-                                        .map(|alias| alias.node.as_str()),
-                                    is_for_introspection: ctx_field.is_for_introspection,
-                                    field: &field.node,
-                                };
-
-                                let resolve_fut = root.resolve_field(&ctx_field);
-
-                                if field.node.directives.is_empty() {
-                                    futures_util::pin_mut!(resolve_fut);
-                                    Ok((
-                                        field_name,
-                                        extensions
-                                            .resolve(resolve_info, &mut resolve_fut)
-                                            .await?
-                                            .unwrap_or_default(),
-                                    ))
-                                } else {
-                                    let mut resolve_fut = resolve_fut.boxed();
-
-                                    for directive in &field.node.directives {
-                                        if let Some(directive_factory) = ctx
-                                            .schema_env
-                                            .custom_directives
-                                            .get(directive.node.name.node.as_str())
-                                        {
-                                            let ctx_directive = ContextBase {
-                                                path_node: ctx_field.path_node,
-                                                is_for_introspection: false,
-                                                item: directive,
-                                                schema_env: ctx_field.schema_env,
-                                                query_env: ctx_field.query_env,
-                                                execute_data: ctx_field.execute_data,
-                                            };
-                                            let directive_instance = directive_factory
-                                                .create(&ctx_directive, &directive.node)?;
-                                            resolve_fut = Box::pin({
-                                                let ctx_field = ctx_field.clone();
-                                                async move {
-                                                    directive_instance
-                                                        .resolve_field(&ctx_field, &mut resolve_fut)
-                                                        .await
-                                                }
-                                            });
-                                        }
-                                    }
-
-                                    Ok((
-                                        field_name,
-                                        extensions
-                                            .resolve(resolve_info, &mut resolve_fut)
-                                            .await?
-                                            .unwrap_or_default(),
-                                    ))
+                            let res = resolve_field_with_hooks(&ctx, root, field).await;
+                            match res {
+                                // A field error is recorded and turns the nearest nullable
+                                // position into null: the field itself if its type is nullable.
+                                Err(err) if field_is_nullable::<T>(&ctx, field) => {
+                                    ctx.add_error(err);
+                                    Ok((field.node.response_key().node.clone(), Value::Null))
                                 }
+                                res => res,
                             }
                         }
                     });
@@ -384,5 +301,113 @@ impl<'a> Fields<'a> {
             }
         }
         Ok(())
+    }
+}
+
+fn field_is_nullable<T: ContainerType + ?Sized>(
+    ctx: &ContextSelectionSet<'_>,
+    field: &Positioned<Field>,
+) -> bool {
+    ctx.schema_env
+        .registry
+        .types
+        .get(T::type_name().as_ref())
+        .and_then(|ty| ty.field_by_name(field.node.name.node.as_str()))
+        .is_some_and(|field| !field.ty.ends_with('!'))
+}
+
+async fn resolve_field_with_hooks<'a, T: ContainerType + ?Sized>(
+    ctx: &ContextSelectionSet<'a>,
+    root: &'a T,
+    field: &'a Positioned<Field>,
+) -> ServerResult<(Name, Value)> {
+    let ctx_field = ctx.with_field(field);
+    let field_name = ctx_field.item.node.response_key().node.clone();
+    let extensions = &ctx.query_env.extensions;
+
+    if extensions.is_empty() && field.node.directives.is_empty() {
+        Ok((
+            field_name,
+            root.resolve_field(&ctx_field).await?.unwrap_or_default(),
+        ))
+    } else {
+        let type_name = T::type_name();
+        let resolve_info = ResolveInfo {
+            path_node: ctx_field.path_node.as_ref().unwrap(),
+            parent_type: &type_name,
+            return_type: match ctx_field
+                .schema_env
+                .registry
+                .types
+                .get(type_name.as_ref())
+                .and_then(|ty| ty.field_by_name(field.node.name.node.as_str()))
+                .map(|field| &field.ty)
+            {
+                Some(ty) => &ty,
+                None => {
+                    return Err(ServerError::new(
+                        format!(
+                            r#"Cannot query field "{}" on type "{}"."#,
+                            field_name, type_name
+                        ),
+                        Some(ctx_field.item.pos),
+                    ));
+                }
+            },
+            name: field.node.name.node.as_str(),
+            alias: field.node.alias.as_ref().map(|alias| alias.node.as_str()),
+            is_for_introspection: ctx_field.is_for_introspection,
+            field: &field.node,
+        };
+
+        let resolve_fut = root.resolve_field(&ctx_field);
+
+        if field.node.directives.is_empty() {
+            futures_util::pin_mut!(resolve_fut);
+            Ok((
+                field_name,
+                extensions
+                    .resolve(resolve_info, &mut resolve_fut)
+                    .await?
+                    .unwrap_or_default(),
+            ))
+        } else {
+            let mut resolve_fut = resolve_fut.boxed();
+
+            for directive in &field.node.directives {
+                if let Some(directive_factory) = ctx
+                    .schema_env
+                    .custom_directives
+                    .get(directive.node.name.node.as_str())
+                {
+                    let ctx_directive = ContextBase {
+                        path_node: ctx_field.path_node,
+                        is_for_introspection: false,
+                        item: directive,
+                        schema_env: ctx_field.schema_env,
+                        query_env: ctx_field.query_env,
+                        execute_data: ctx_field.execute_data,
+                    };
+                    let directive_instance =
+                        directive_factory.create(&ctx_directive, &directive.node)?;
+                    resolve_fut = Box::pin({
+                        let ctx_field = ctx_field.clone();
+                        async move {
+                            directive_instance
+                                .resolve_field(&ctx_field, &mut resolve_fut)
+                                .await
+                        }
+                    });
+                }
+            }
+
+            Ok((
+                field_name,
+                extensions
+                    .resolve(resolve_info, &mut resolve_fut)
+                    .await?
+                    .unwrap_or_default(),
+            ))
+        }
     }
 }
